@@ -8,6 +8,14 @@ Property theorems over the models `Tahoe/Config/Parse.lean` (the four util funct
 tables and grammars are in `Tahoe/Config/Doc.lean`, helper lemmas in `Tahoe/Config/Lemmas.lean` and
 `Tahoe/Config/GlueLemmas.lean`.
 
+As built: 39 theorems.  The two defects found for this property (documented size spellings with a space were
+rejected; `parse_date` accepted impossible days and trailing time-of-day text) are repaired in /repo (commits
+8480b59, 396b8df — formerly fixes/C48-size-whitespace.diff, fixes/C48-date-strict.diff) and the model is the
+repaired code.  Open: printed sizes ≥ 1024 do not parse back (known finding `print-parse-decimal-rejected`), so
+`print_then_parse_partial` stays partial.  Not a C48 violation but noted (DESIGN §8.9): the docs say an
+`override_lease_duration` in cutoff-date mode "will be rejected"; the code parses it and ignores it
+(`glue_override_lease_duration` states exactly that).
+
 ## Coverage of the statement
 
 | clause of the statement (properties.jsonl) | proved for the model by |
